@@ -40,6 +40,8 @@ struct Parsed {
     whole: bool,
     contig: bool,
     last_time: u128,
+    /// the file does not end with a newline: its last line was cut (a writer killed in the middle of a write)
+    torn: bool,
 }
 
 fn find_num(line: &[u8], key: &[u8]) -> Option<u128> {
@@ -59,11 +61,13 @@ fn find_num(line: &[u8], key: &[u8]) -> Option<u128> {
 
 fn parse_file(path: &Path) -> Option<Parsed> {
     let data = std::fs::read(path).ok()?;
-    let mut p = Parsed { len: data.len() as u64, lines: 0, first: 0, last: 0, whole: true, contig: true, last_time: 0 };
-    if !data.is_empty() && *data.last().unwrap() != b'\n' {
+    let mut p = Parsed { len: data.len() as u64, lines: 0, first: 0, last: 0, whole: true, contig: true, last_time: 0, torn: false };
+    let complete = data.iter().rposition(|b| *b == b'\n').map_or(0, |i| i + 1);
+    if complete < data.len() {
         p.whole = false;
+        p.torn = true; // only the complete lines are looked at below
     }
-    for line in data.split(|b| *b == b'\n') {
+    for line in data[..complete].split(|b| *b == b'\n') {
         if line.is_empty() {
             continue;
         }
@@ -134,7 +138,7 @@ impl Dir {
             let Ok(md) = std::fs::metadata(&path) else { continue };
             let mtime = md.modified().unwrap();
             if let Some(rank) = self.foreign.get(&name) {
-                v.push((name.clone(), *rank, json!({"len":md.len(),"own":false,"lines":0,"first":0,"last":0,"whole":true,"contig":true}), mtime));
+                v.push((name.clone(), *rank, json!({"len":md.len(),"own":false,"lines":0,"first":0,"last":0,"whole":true,"contig":true,"torn":false}), mtime));
                 continue;
             }
             let p = match self.cache.get(&name) {
@@ -145,7 +149,7 @@ impl Dir {
                     p
                 }
             };
-            v.push((name.clone(), p.last_time, json!({"len":p.len,"own":true,"lines":p.lines,"first":p.first,"last":p.last,"whole":p.whole,"contig":p.contig}), mtime));
+            v.push((name.clone(), p.last_time, json!({"len":p.len,"own":true,"lines":p.lines,"first":p.first,"last":p.last,"whole":p.whole,"contig":p.contig,"torn":p.torn}), mtime));
         }
         v.sort_by_key(|x| x.1);
         v
@@ -346,7 +350,7 @@ fn run_scenario(sid: u64, seed: u64, thorough: bool, root: &Path) -> Events {
             "Start".into(),
             json!({"w":sc.w,"k":sc.k,"keepAge":sc.keep_age,"writeAgeMs":sc.write_age_ms,"dir":listing,"restamped":restamped,
                    "ok":res.is_ok(),"err":res.as_ref().err().cloned().unwrap_or_default(),"startLen":start_len,"files":files,
-                   "t0":t0,"t1":t1,"decoysOk":d.decoys_ok(),"created":new_names.len()}),
+                   "t0":t0,"t1":t1,"decoysOk":d.decoys_ok(),"created":new_names.len(),"afterCrash":false,"seq0":0}),
         ));
         let Ok(sender) = res else { break 'run };
         // ---- batches until the next restart point or the end
@@ -438,6 +442,116 @@ pub fn run_writer(args: &Args, mut out: Out) {
         for (name, v) in evs {
             out.ev(sid, &name, v);
         }
+    }
+    let _ = std::fs::remove_dir_all(&root);
+    out.finish();
+}
+
+// ------------------------------------------------------------------------------ logwriter-crash
+/// Child process of `logwriter-crash`: starts a writer and sends events as fast as it can until it is killed.
+pub fn run_child(args: &Args) {
+    let dir = PathBuf::from(args.str("dir", "."));
+    let sc = Scenario { w: args.u64("w", 65536), k: args.u64("k", 65536), keep_age: 0, write_age_ms: 86_400_000, nevents: 0, restarts: 0, age_mode: false };
+    let mut r = StdRng::seed_from_u64(args.seed());
+    let mut seq = args.u64("first", 1);
+    let sender = start_writer(&sc, &dir.join("app.log")).unwrap();
+    loop {
+        let (ev, _) = make_event(seq, event_pad(&mut r, false));
+        if sender.send(ev).is_err() {
+            std::process::exit(3);
+        }
+        seq += 1;
+    }
+}
+
+/// C19, crash points: the writer runs in a child process that is killed (SIGKILL) at a random instant, one to three
+/// times in a row; after each kill the directory is logged; then a writer is started in this process on the same
+/// directory and the run continues as in `logwriter-run`.
+pub fn run_crash(args: &Args, mut out: Out) {
+    let n = args.u64("n", 12);
+    let seed = args.seed();
+    let root = std::env::current_dir().unwrap().join("lwc_dirs");
+    std::fs::create_dir_all(&root).unwrap();
+    let exe = std::env::current_exe().unwrap();
+    for sid in 1..=n {
+        if !out.wants(sid) {
+            continue;
+        }
+        let mut r = StdRng::seed_from_u64(seed.wrapping_mul(7_000_003).wrapping_add(sid));
+        let t_origin = Instant::now();
+        let w = 65536u64;
+        let sc = Scenario { w, k: w * *[2u64, 4, 7].choose(&mut r).unwrap() / 2, keep_age: 0, write_age_ms: 86_400_000, nevents: r.gen_range(30..200), restarts: 0, age_mode: false };
+        let dir = root.join(format!("lwc_{sid}"));
+        let _ = std::fs::remove_dir_all(&dir);
+        std::fs::create_dir_all(&dir).unwrap();
+        let mut d = Dir { dir: dir.clone(), prefix_name: "app.log".into(), foreign: HashMap::new(), cache: HashMap::new(), decoys: vec![], fresh_foreign: vec![] };
+        out.ev(sid, "Reset", json!({}));
+        let mut next_seq = 1u64;
+        for _ in 0..r.gen_range(1..=3) {
+            let mut child = std::process::Command::new(&exe)
+                .args(["logwriter-child", "--out", "/dev/null", "--dir", dir.to_str().unwrap(), "--w", &sc.w.to_string(), "--k", &sc.k.to_string(),
+                       "--first", &next_seq.to_string(), "--seed", &r.gen::<u32>().to_string()])
+                .stdout(std::process::Stdio::null())
+                .stderr(std::process::Stdio::null())
+                .spawn()
+                .unwrap();
+            std::thread::sleep(Duration::from_micros(r.gen_range(3_000..250_000)));
+            let _ = child.kill();
+            let _ = child.wait();
+            let listing = d.listing();
+            let max_seq = listing.iter().filter_map(|x| x.2["last"].as_u64()).max().unwrap_or(0).max(next_seq - 1);
+            out.ev(sid, "Crash", json!({"w":sc.w,"k":sc.k,"maxEvent":61_500,"files":listing.iter().map(|x| x.2.clone()).collect::<Vec<_>>(),"first":next_seq,"maxSeq":max_seq}));
+            next_seq = max_seq + 1;
+        }
+        // ---- a writer in this process on the same directory
+        let (listing, restamped) = stamp(&mut d, &mut r, &sc);
+        let t0 = ms(t_origin);
+        let res = start_writer(&sc, &dir.join("app.log"));
+        let t1 = ms(t_origin);
+        let start_len = d.listing().iter().rev().find(|x| x.2["own"] == true).and_then(|x| x.2["len"].as_u64()).unwrap_or(0);
+        let files = d.files_json();
+        out.ev(sid, "Start", json!({"w":sc.w,"k":sc.k,"keepAge":0,"writeAgeMs":sc.write_age_ms,"dir":listing,"restamped":restamped,
+                                    "ok":res.is_ok(),"err":res.as_ref().err().cloned().unwrap_or_default(),"startLen":start_len,"files":files,
+                                    "t0":t0,"t1":t1,"decoysOk":true,"created":1,"afterCrash":true,"seq0":next_seq - 1}));
+        let Ok(sender) = res else { continue };
+        let mut seq = next_seq - 1;
+        let until = seq + sc.nevents;
+        while seq < until {
+            let nb = r.gen_range(1..=40).min(until - seq);
+            let mut sizes = vec![];
+            let t0 = ms(t_origin);
+            let mut send_ok = true;
+            for _ in 0..nb {
+                seq += 1;
+                let (ev, size) = make_event(seq, event_pad(&mut r, false));
+                sizes.push(size);
+                if sender.send(ev).is_err() {
+                    send_ok = false;
+                }
+            }
+            let deadline = Instant::now() + Duration::from_secs(15);
+            let mut seen = false;
+            while Instant::now() < deadline {
+                if d.names().iter().any(|n| tail_seq(&dir.join(n)) == Some(seq)) {
+                    seen = true;
+                    break;
+                }
+                if !send_ok {
+                    break;
+                }
+                std::thread::sleep(Duration::from_micros(300));
+            }
+            let t1 = ms(t_origin);
+            let files = d.files_json();
+            out.ev(sid, "Batch", json!({"sizes":sizes,"upto":seq,"seen":seen,"sendOk":send_ok,"files":files,"t0":t0,"t1":t1,
+                                        "writeAgeMs":sc.write_age_ms,"decoysOk":true}));
+            if !seen {
+                break;
+            }
+        }
+        drop(sender);
+        out.ev(sid, "Stop", json!({}));
+        let _ = std::fs::remove_dir_all(&dir);
     }
     let _ = std::fs::remove_dir_all(&root);
     out.finish();
